@@ -3,13 +3,16 @@ import GateModel.C38.Spec
 /-
 C38 driver.  Case lines (harness/c38/main.go):
 
-  script <R> <D> <init> <end> <t:op[:arg],…|->   \t   seq=<c.c.c|_> intime=<0|1>
+  script <R> <D> <init> <end> <t:op[:arg],…|->   \t   seq=<c.c.c|_> intime=<0|1> at=<b.b.b|_>
   unstable script …                               \t   unstable
+(the harness prints `watcher-not-closed` instead of a sequence when the loop ignored a scripted watcher failure;
+the model never does, so that is a correspondence mismatch)
 
 contents: `a` `b` `c`, `-` = file missing.  ops: w:<c> r:<c> d (file state changes), e E (notification for the
 config file), o (ignored notification), x:<kind> (watcher failure).
 Model output: the callback's content sequence predicted by the model of the code variant the regenerated facts
-say the source is (`codeVariant`); `intime` is always 1 in the model (theorem `at_most_once_after_stabilisation`).
+say the source is (`codeVariant`) and the callback instants in 100 ms buckets `(t+10)/100`; `intime` is always 1 in
+the model (theorem `at_most_once_after_stabilisation`).
 When some operation is nominally closer than `margin` to a model deadline the real ordering cannot be
 predicted: the implementation's line is echoed and only the spec verdict is given.
 Verdict: the executable spec on the IMPLEMENTATION's sequence (`specVerdict`).
@@ -35,8 +38,8 @@ def showSeq (xs : List String) : String := if xs.isEmpty then "_" else ".".inter
 
 def parseImpl (impl : String) : Option (List String × Bool) :=
   match impl.splitOn " " with
-  | [a, b] =>
-    if a.startsWith "seq=" && b.startsWith "intime=" then
+  | [a, b, c] =>
+    if a.startsWith "seq=" && b.startsWith "intime=" && c.startsWith "at=" then
       let sq := (a.drop 4).toString
       some (if sq = "_" then [] else sq.splitOn ".", (b.drop 7).toString = "1")
     else none
@@ -62,12 +65,13 @@ def stepCase (c : Case) : String × String :=
         let settled := decide (lastFs + R + D < endT)
         let verdict := match parseImpl c.impl with
           | some (sq, inTime) => specVerdict c0 sq final settled inTime
-          | none => "viol:unparsable-output"
+          | none => if c.impl = "watcher-not-closed" then "-" else "viol:unparsable-output"
         match runScript codeVariant cfg c0 (ops.map fun (t, o, _) => (t, o)) endT with
         | none => ("model-error", verdict)
         | some x =>
           if x.amb then (c.impl, verdict)
-          else ("seq=" ++ showSeq (seen x.st) ++ " intime=1", verdict)
+          else ("seq=" ++ showSeq (seen x.st) ++ " intime=1 at=" ++
+                showSeq ((x.st.calls.map fun p => toString ((p.1 + 10) / 100)).reverse), verdict)
     | _, _, _, _ => ("bad-case", "-")
   | _, _ => ("bad-case", "-")
 
